@@ -262,6 +262,129 @@ pub fn strategy() -> BoxedStrategy<Case> {
         .boxed()
 }
 
+#[derive(Clone, Debug, Serialize, Deserialize)]
+pub struct LoadCase {
+    pub threads: usize,
+    pub depth: usize,
+    pub rounds: usize,
+}
+
+/// "stable for every history" includes what other threads are doing at the moment: many threads
+/// compare / hash / look up their own deep terms at the same time (released together by a
+/// barrier). Every verdict concerns one thread's own values, so the expected answers do not
+/// depend on the schedule; returns the descriptions of wrong answers.
+pub fn under_load(c: &LoadCase, with_hash: bool) -> Vec<String> {
+    use std::collections::hash_map::DefaultHasher;
+    use std::collections::HashSet;
+    use std::hash::{Hash, Hasher};
+    use std::sync::{Arc, Barrier, Mutex};
+    let n = c.threads.clamp(1, 256);
+    let depth = c.depth.min(5_000);
+    let rounds = c.rounds.clamp(1, 50);
+    let barrier = Arc::new(Barrier::new(n));
+    let wrong: Arc<Mutex<Vec<String>>> = Arc::new(Mutex::new(vec![]));
+    let build = move |i: usize, flip: bool| {
+        // a chain of `depth` ordered layers (hashing it recurses `depth` levels, at linear cost)
+        // inside an unordered pair: the pair's equality looks the chain up by its hash
+        let mut cur = Term::new_word(format!("a{i}"));
+        for l in 0..depth {
+            cur = match l % 3 {
+                0 => Term::new_negation(cur),
+                1 => Term::new_product(vec![cur, Term::new_word("c")]),
+                _ => Term::new_implication(cur, Term::new_word("d")),
+            };
+        }
+        let y = Term::new_word(format!("b{i}"));
+        let mut cur = if flip { Term::new_set_extension(vec![y, cur]) } else { Term::new_set_extension(vec![cur, y]) };
+        for _ in 0..3 {
+            cur = Term::new_conjunction(vec![cur, Term::new_word("e")]);
+        }
+        cur
+    };
+    let handles: Vec<_> = (0..n)
+        .map(|i| {
+            let barrier = barrier.clone();
+            let wrong = wrong.clone();
+            std::thread::Builder::new()
+                .stack_size(16 << 20)
+                .spawn(move || {
+                    let quiet_a = build(i, false);
+                    barrier.wait();
+                    let mut bad: Vec<String> = vec![];
+                    let mut built_under_load = vec![];
+                    for r in 0..rounds {
+                        let b = build(i, r % 2 == 0);
+                        if quiet_a != b {
+                            bad.push(format!("thread {i} round {r}: two builds of the same term compare unequal"));
+                        }
+                        #[allow(clippy::redundant_clone)]
+                        if b != b.clone() {
+                            bad.push(format!("thread {i} round {r}: a term differs from its clone"));
+                        }
+                        if with_hash {
+                            let h = |t: &Term| {
+                                let mut s = DefaultHasher::new();
+                                t.hash(&mut s);
+                                s.finish()
+                            };
+                            if h(&quiet_a) != h(&b) {
+                                bad.push(format!("thread {i} round {r}: equal terms hash differently"));
+                            }
+                            let set: HashSet<Term> = HashSet::from([b.clone()]);
+                            if !set.contains(&quiet_a) {
+                                bad.push(format!("thread {i} round {r}: HashSet{{x}}.contains(y) is false for equal x, y"));
+                            }
+                        }
+                        built_under_load.push(b);
+                    }
+                    barrier.wait();
+                    // everybody is quiet again: what was built under load must still be itself
+                    let fresh = build(i, true);
+                    for (r, b) in built_under_load.iter().enumerate() {
+                        if *b != fresh || fresh != *b {
+                            bad.push(format!("thread {i}: the term built in round {r} while other threads were busy is unequal to a fresh build"));
+                        }
+                    }
+                    wrong.lock().unwrap().extend(bad);
+                })
+        })
+        .collect();
+    // (a thread that could not be started would leave the others waiting at the barrier: that is
+    // an infrastructure problem, not a verdict)
+    if handles.iter().any(|h| h.is_err()) {
+        eprintln!("NOTE under-load: could not start {n} threads; case skipped");
+        std::process::exit(2);
+    }
+    for h in handles.into_iter().flatten() {
+        if h.join().is_err() {
+            wrong.lock().unwrap().push("a worker thread panicked".to_string());
+        }
+    }
+    let w = wrong.lock().unwrap().clone();
+    w
+}
+
+pub fn load_cases() -> Vec<LoadCase> {
+    vec![
+        LoadCase { threads: 64, depth: 3_000, rounds: 6 },
+        LoadCase { threads: 128, depth: 600, rounds: 10 },
+        LoadCase { threads: 16, depth: 40, rounds: 50 },
+        LoadCase { threads: 200, depth: 150, rounds: 10 },
+    ]
+}
+
+pub fn check_load(sh: &Shared, c: &LoadCase) -> Check {
+    sh.evals((c.threads * c.rounds * 3) as u64);
+    sh.nontrivial(fp(c));
+    sh.class(&format!("under-load/{}x{}", c.threads, c.depth));
+    sh.sample("under-load", || json!(c));
+    let wrong = under_load(c, false);
+    if !wrong.is_empty() {
+        fail!("eq:unstable-under-load", "{} threads × depth {} × {} rounds: {} wrong answers, e.g. {}", c.threads, c.depth, c.rounds, wrong.len(), wrong[0]);
+    }
+    Ok(())
+}
+
 pub fn streams() -> Vec<Box<dyn AnyStream>> {
     vec![
         Box::new(Stream::<u8> {
@@ -270,6 +393,13 @@ pub fn streams() -> Vec<Box<dyn AnyStream>> {
             thorough: 0,
             source: Source::Enum(Box::new(|_| Box::new(vec![0u8].into_iter()))),
             check: Box::new(check_universe),
+        }),
+        Box::new(Stream::<LoadCase> {
+            name: "under-load",
+            quick: 0,
+            thorough: 0,
+            source: Source::Enum(Box::new(|_| Box::new(load_cases().into_iter()))),
+            check: Box::new(check_load),
         }),
         Box::new(Stream::<Case> {
         name: "pairs",
